@@ -747,13 +747,18 @@ impl<S: Sample> RenderedImage<S> {
         *grid_lock = FrameRender::Rendering;
         drop(grid_lock);
 
-        composite(
+        let result = composite(
             &self.image.frame,
             &mut grid,
             self.image.refs.clone(),
             oriented_image_region,
             pool,
-        )?;
+        );
+        if let Err(e) = result {
+            // Leave `Rendering` and wake up waiters; otherwise later renders wait forever.
+            drop(self.image.done_render(FrameRender::ErrTaken));
+            return Err(e);
+        }
 
         let image = Arc::new(grid);
         drop(
